@@ -225,6 +225,7 @@ func (c *lossState) datagramReceived(now time.Time, size int) {
 		if c.ptoTimerArmed && !c.timer.IsZero() && !c.timer.After(now) {
 			c.ptoExpired = true
 			c.timer = time.Time{}
+			c.ptoBackoffCount++
 		}
 	}
 }
